@@ -306,7 +306,14 @@ static void gen_C05_like(const std::string &tier, uint64_t seed, long idx, Scn &
   // interleave files so that a wall-clock cut still covers every enumerated class of some files
   long nfiles = tier == "quick" ? C05_FILES_QUICK : C05_FILES_THOROUGH;
   long file = idx % nfiles, j = idx / nfiles;
-  (void)slots;
+  if (tier != "quick") {
+    // thorough: blocks of 64 files, each block taken through ALL its slots before the next one starts, so that a run that
+    // the wall budget cuts short has still put every class of alteration to some files (and not only the first classes to all)
+    const long B = 64;
+    long blk = idx / (B * slots), r = idx % (B * slots);
+    file = blk * B + r % B;
+    j = r / B;
+  }
   Rng gf(Rng::mix(seed, 0xC05, (uint64_t)file));
   fill_file_cfg(gf, s, 4, 6);
   s.i["file"] = file;
